@@ -371,7 +371,13 @@ def plan(prop, tier, seed, find):
                     for fr in ("simple", "nodup"):
                         for s in find([], {k: v for k, v in famx.items() if k != "nsym"}, 2, base + 1, dyn=dict(_solve=True, notes="VIOLATION", dd="pooled", cache=ca, fringe=fr, width=w, tries=4), count=(600 if tier == "quick" else 4000)):
                             b.append(P(kind="solve", dd="pooled", cache=ca, fringe=fr, width=str(w), mode="plain", seed=s, rub="none", rev=0, props="C15,C02", **famx, **lim))
-        return dict(engine="symx", bundles=b, prefixes=["C15:", "C02:solution", "nontermination"], vacuity=dict(explored_ge2=1), functions=FUNCS_SOLVE + ["ddo::Pooled::_move_to_next_layer (is_impacted_by / long arcs)"],
+        # parallel pooled solver on long-arc models (scheduled)
+        limp = dict(max_paths=800, max_secs=15) if tier == "quick" else dict(max_paths=30000, max_secs=900)
+        lingering = find(["lingering_root_child"], {k: v for k, v in fam.items() if k != "nsym"}, 4 if tier == "quick" else 16, base + 1)
+        for k, s in enumerate(lingering):
+            for ca in ("0", "1"):
+                b.append(P(kind="par", dd="pooled", cache=ca, fringe=("nodup" if k % 2 else "simple"), width=("2" if k % 3 == 0 else "1"), threads=2, preempt=(2 if k % 2 else 1), mode="plain", seed=s, rub="none", rev=0, props="C15,C02", n=3, b=3, d=2, setnext=1, long_arcs=1, depth_free=1, nsym=3, _engine="sched", **limp))
+        return dict(engine="symx", bundles=b, prefixes=["C15:", "C02:solution", "C04:", "nontermination"], vacuity=dict(explored_ge2=1), functions=FUNCS_SOLVE + ["ddo::Pooled::_move_to_next_layer (is_impacted_by / long arcs)"],
                     bounds=bound_solve + "; depth-free table models with irrelevance masks (a state not impacted by a variable keeps its state at cost 0 under a neutral default decision), static and permuted variable orders, widths 1..3; Pooled compared with the optimum and (same obligations) with Mdd<LEL> in which every state is expanded on every variable; termination through a budget of 20000 model callbacks",
                     nontrivial=("decided sub-case in which the solver processed >= 2 sub-problems on some path", lambda r: r["notes"].get("explored_ge2", 0) > 0))
     if prop == "C11":
